@@ -72,6 +72,17 @@ package bmtree
 //@     invariant rst == SM(a, old(b), old(shift), ite(old(shift) - shift >= 64, 64, int(old(shift) - shift)))
 //@     use forall m int :: sm_skip(a, old(b), old(shift), int(old(shift) - shift) + 1, m)
 
+// debug-only contract helpers (run through must.Be.OK only with -tags debug): expanded at the
+// call site, so that every must.Be.* inside them is an obligation under the caller's requires
+//@ func pathCheck
+//@   inline
+//@ func bitmapSizeCheck
+//@   inline
+//@ func bitmapMustHaveLevel
+//@   inline
+//@ func bitmapPathMustHaveEqualHeight
+//@   inline
+
 // PathToIndex: the same index (same spec function preIdx) for a node on a stored level.
 //@ func PathToIndex returns (idx)
 //@   requires 1 <= bitmapSize && wfPath(path, hgt(bitmapSize)) && (bitmapSize >> uint32(PC32(uint32(path)))) & 1 == 1
@@ -79,6 +90,7 @@ package bmtree
 //@   assigns nothing
 //@   fuel 2
 //@   use pc32_le(uint32(path), int(hgt(bitmapSize)))
+//@   use pc32_lowmask(int(hgt(bitmapSize)))
 //@   use pc64_split(path ^ 0xffffffff00000000)
 //@   use pc32_not(uint32(path >> 32))
 //@   use pc64_lowmask(int(PC32(uint32(path))))
@@ -98,6 +110,7 @@ package bmtree
 //@   assigns nothing
 //@   fuel 2
 //@   use pc32_le(uint32(path), int(hgt(bitmapSize)))
+//@   use pc32_lowmask(int(hgt(bitmapSize)))
 //@   use pc64_split(path ^ 0xffffffff00000000)
 //@   use pc32_not(uint32(path >> 32))
 //@   use pc64_lowmask(int(PC32(uint32(path))))
